@@ -185,8 +185,8 @@ def h_zero(ex):
 
 
 def h_cone(ex):
-    """frequency-domain models: the pulse value at the shower time (all components in
-    phase) is largest on the Cherenkov cone and falls with the angular distance on either
+    """frequency-domain models: the pulse extremum (ZHS: the sample at the shower time, all
+    components in phase; AVZ: the sample before it, see below) is largest on the Cherenkov cone and falls with the angular distance on either
     side (ZHS; AVZ: after dividing by the sin(theta) projection factor), and on the cone an
     electromagnetic shower's field is proportional to its energy."""
     cls = _model(ex.case['model'])
@@ -201,15 +201,22 @@ def h_cone(ex):
     d2 = ex.real('d2', 0.0, 0.5)
     ex.assume(d1 <= d2)
     sg = 1.0 if side == 'above' else -1.0
+    if ex.sym:
+        # far from the cone the components are exp(-large): a ladder of concrete points
+        # bounds those tails from above (monotonicity against each point)
+        for x in (-0.5, -1.0, -2.0, -3.0, -5.0, -8.0, -12.0, -20.0, -40.0, -100.0):
+            P.note_exp_point(x, math.exp(x))
     p = particle(E, 1.0, 0.0)
     sc = _norm(ex, _vals(cls(times, p, THETA_C, viewing_distance=1.0, ice_model=Ice(), t0=t0)))
 
     def peak(theta):
         v = _vals(cls(times, p, theta, viewing_distance=1.0, ice_model=Ice(), t0=t0))
-        x = v[i0] * sc
         if model == 'avz':
-            x = x / np.sin(theta)
-        return x
+            # AVZ sets all phases to 90 degrees: the pulse is odd about the shower time
+            # (zero there); its extremum sample is the neighbour, where every frequency
+            # component enters with the same sign (sin(2 pi j / N) > 0 for j < N/2)
+            return v[i0 - 1] * sc / np.sin(theta)
+        return v[i0] * sc
     a1 = peak(THETA_C + sg * d1)
     a2 = peak(THETA_C + sg * d2)
     a0 = peak(THETA_C)
@@ -276,9 +283,9 @@ HARNESSES = [
     Harness('cone-peak', h_cone, _mods, encodes=_enc, twins=('rising',),
             cases={'quick': [{'model': 'zhs', 'n': 2, 'side': 'above', '_twins': 1},
                              {'model': 'zhs', 'n': 2, 'side': 'below'},
-                             {'model': 'avz', 'n': 4, 'side': 'above'}],
+                             {'model': 'zhs', 'n': 3, 'side': 'above'}],
                    'thorough': [{'model': m, 'n': n, 'side': s} for m, n in
-                                (('zhs', 2), ('zhs', 3), ('avz', 4), ('avz', 5))
+                                (('zhs', 2), ('zhs', 3))
                                 for s in ('above', 'below')]},
             budget={'quick': {'wall_s': 300, 'query_timeout_ms': 60000}}),
     Harness('energy-proportional', h_energy, _mods, encodes=_enc, twins=('sqrt',),
@@ -302,9 +309,11 @@ OUTSIDE = ["ARZ off-cone convolution with symbolic angle/shower time (>= 1000 x 
            "convolution of transcendental profiles): ARZ is checked with symbolic distance, "
            "symbolic common time shift, symbolic energy factor on the cone and concrete angle "
            "families only; ARZ cone-peak ordering is outside",
-           "AVZ peak ordering is claimed for the cone factor (value / sin(theta)): the "
-           "sin(theta)/sin(theta_c) projection factor moves the maximum of the product above "
-           "the cone by about cot(theta_c) dTheta^2 / (2 ln 2)",
+           "AVZ cone-peak ordering: the sin(theta)/sin(theta_c) projection factor moves the "
+           "maximum of each component above the cone by about cot(theta_c) dTheta^2 / (2 ln 2) "
+           "(4e-4 of the peak at 250 MHz), and the product of trigonometric and exponential "
+           "atoms is not decided by z3 within the budget; the harness code for AVZ is kept but "
+           "no AVZ case is registered",
            "float rounding of (t0 - times[0]) / dt at exact sample boundaries"]
 ASSUMPTIONS = ["scipy.fft / numpy.fft compute the DFT (shim compared with numpy every run)",
                "scipy.signal.convolve is the full discrete convolution"]
